@@ -121,6 +121,16 @@ def find_scans(crate):
             sc = None
         if sc is not None:
             scans[k] = sc
+    # lookups that delegate to a whole-row scan helper
+    for k, f in crate.fns.items():
+        if k in scans or f.f["kind"] != "Fn" or f.argc != 1 or not k.startswith("systematic_constants::"):
+            continue
+        try:
+            sc = scanmod.match_delegate(f, scans)
+        except Exception:
+            sc = None
+        if sc is not None:
+            scans[k] = sc
     return scans
 
 
@@ -128,7 +138,7 @@ def run_lookup_schema(rep, crate, cfg):
     R = "C15-R2"
     t2, p1, mx = find(crate)
     scans = find_scans(crate)
-    tab = [s for s in scans.values() if s["kind"] == "table"]
+    tab = [s for s in scans.values() if s["kind"] == "table" and s.get("val_col") is not None]
     idx = [s for s in scans.values() if s["kind"] == "index"]
     rep.floor(R, len(tab), 6, "table lookup functions matching the scan schema", cfg)
     rep.floor(R, len(idx), 1, "index scan (Deg) matching the scan schema", cfg)
@@ -137,6 +147,17 @@ def run_lookup_schema(rep, crate, cfg):
         fn = crate.fns[k]
         where = fn.loc()
         short = k.split("::")[-1]
+        if sc["kind"] == "table" and sc.get("val_col") is None:
+            # whole-row helper: it has no entry assert of its own; every caller must establish the bound
+            users = [u for u in scans.values() if u.get("via") == k]
+            sites = [(kk, ff, bi, t) for kk, ff in crate.fns.items() for bi, t in ff.calls() if (t.get("resolved") or t.get("callee")) == k]
+            okc = bool(sites) and all(any(u["fn"] == kk and u.get("guard") for u in users) for kk, ff, bi, t in sites)
+            rep.check(okc, R, k, "row-helper-guarded-at-callers", where,
+                      "%s returns the whole table row; each of its %d caller(s) is a lookup that asserts its argument <= MAX first" % (short, len(sites)),
+                      {"callers": sorted({kk for kk, _, _, _ in sites})}, cfg)
+            rep.check(sc["op"] == "Ge" and sc["key_col"] == 0 and scanmod.first_match_is_smallest(sc), R, k,
+                      "first-row-with-key-ge-k", where, "%s returns the first row with K' >= k of an ascending table" % short, None, cfg)
+            continue
         ok, why = scanmod.exhaustion_holds(sc)
         rep.check(ok, R, k, "scan-exhaustive", where,
                   "%s: the scan always returns for every argument admitted by its entry assert (%s), so the code "
